@@ -47,8 +47,14 @@ def idents():
 def literals():
     ints = st.one_of(st.integers(0, 20), st.integers(0, 10**6), st.integers(10**18, 10**21)).map(
         lambda v: ['const', 'int', v])
-    decs = st.builds(lambda a, b: ['const', 'decimal', Decimal(f'{a}.{b}')], st.integers(0, 10**5),
-                     st.from_regex(r'[0-9]{0,6}', fullmatch=True))
+    decs = st.one_of(
+        st.builds(lambda a, b: ['const', 'decimal', Decimal(f'{a}.{b}')], st.integers(0, 10**5),
+                  st.from_regex(r'[0-9]{0,6}', fullmatch=True)),
+        # more significant digits than the decimal context keeps (28): a literal is exact
+        st.builds(lambda a, b: ['const', 'decimal', Decimal(f'{a}.{b}')], st.integers(0, 10**31),
+                  st.from_regex(r'[0-9]{20,40}', fullmatch=True)),
+        st.sampled_from(['1.00000000000000000000000000001', '123456789012345678901234567890.5', '0.' + '0' * 40 + '1',
+                         '9' * 30 + '.' + '9' * 30]).map(lambda v: ['const', 'decimal', Decimal(v)]))
     dates = st.dates(datetime.date(1, 1, 1), datetime.date(9999, 12, 31)).map(lambda v: ['const', 'date', v])
     strs = st.one_of(
         st.text(alphabet="ab Z09_;,()*/%-'\n#.[]", max_size=8),
